@@ -184,18 +184,28 @@ c.store_guard = lambda c, field, obj, val: z3.BoolVal(False)
 TIDY = c
 
 
+def cancel_effect(c, st, x):
+    """exact effect of Task.cancel() called on x at the entry instant of _tidy_tasks"""
+    newly = And(tstate(c.pre, x) == S_PENDING, Not(c.pre.f('$cancel_req', x)))
+    return And(st.f('$cancel_req', x) == Or(c.pre.f('$cancel_req', x), tstate(c.pre, x) == S_PENDING),
+               st.f('$cancel_vt', x) == If(newly, vt(c.pre), c.pre.f('$cancel_vt', x)))
+
+
 def _tidy_cancelled_all(c):
-    """every element that was pending on entry has been asked to cancel, at the entry instant"""
+    """every element that was pending on entry has been asked to cancel, at the entry instant; the
+    elements that were not pending are left alone"""
     x = q()
     P = c.pre.elems(c.a.pending)
-    return ForAll([x], Implies(And(Select(P, x), tstate(c.pre, x) == S_PENDING),
-                               And(c.cur.f('$cancel_req', x),
-                                   Implies(Not(c.pre.f('$cancel_req', x)), c.cur.f('$cancel_vt', x) == vt(c.pre)))),
-                  patterns=[c.cur.f('$cancel_req', x)])
+    return ForAll([x], Implies(Select(P, x), cancel_effect(c, c.cur, x)), patterns=[c.cur.f('$cancel_req', x)])
 
 
-c.ensures('no-element-left-pending', lambda c: none_pending(c.cur, c.pre.elems(c.a.pending)),
-          props=['C11', 'C05', 'C08', 'C09'])
+def _tidy_export(c):
+    if c.mode == 'assume':
+        c.cur.g['$tidy'] = dict(pre=c.pre, post=c.cur.copy(), pending=c.a.pending)
+    return none_pending(c.cur, c.pre.elems(c.a.pending))
+
+
+c.ensures('no-element-left-pending', _tidy_export, props=['C11', 'C05', 'C08', 'C09'])
 c.ensures('every-pending-element-cancelled-at-once', _tidy_cancelled_all, props=['C05', 'C08', 'C09'])
 def _tidy_frame_cancel(c):
     """cancellation is requested for elements of the argument only"""
@@ -234,10 +244,7 @@ def _tidy_loop0(c):
     x = q()
     P = c.iterset
     return [
-        ('visited-cancelled', ForAll([x], Implies(And(Select(c.visited, x), tstate(c.pre, x) == S_PENDING),
-                                                  And(c.cur.f('$cancel_req', x),
-                                                      Implies(Not(c.pre.f('$cancel_req', x)),
-                                                              c.cur.f('$cancel_vt', x) == vt(c.pre)))),
+        ('visited-cancelled', ForAll([x], Implies(Select(c.visited, x), cancel_effect(c, c.cur, x)),
                                      patterns=[c.cur.f('$cancel_req', x)])),
         ('clock-still', vt(c.cur) == vt(c.pre)),
         ('states-still', And(c.cur.H('_state') == c.pre.H('_state'))),
@@ -255,10 +262,7 @@ def _tidy_loop1(c):
     P = c.pre.elems(c.a.pending)
     canc = c.cur.env['cancelled'].t
     return [
-        ('all-cancel-requested', ForAll([x], Implies(And(Select(P, x), tstate(c.pre, x) == S_PENDING),
-                                                     And(c.cur.f('$cancel_req', x),
-                                                         Implies(Not(c.pre.f('$cancel_req', x)),
-                                                                 c.cur.f('$cancel_vt', x) == vt(c.pre)))),
+        ('all-cancel-requested', ForAll([x], Implies(Select(P, x), cancel_effect(c, c.cur, x)),
                                         patterns=[c.cur.f('$cancel_req', x)])),
         ('pending-set-unchanged', c.cur.elems(c.a.pending) == P),
         ('remembered-cancellation', Or(canc == NONE, isa['CancelledError'](canc))),
@@ -310,7 +314,13 @@ def _tidyx_no_cancel(c):
                   patterns=[c.cur.f('$cancel_req', x)])
 
 
-c.ensures('zero-time', lambda c: vt(c.cur) == vt(c.pre), props=['C05', 'C06'])
+def _tidyx_zero(c):
+    if c.mode == 'assume':
+        c.cur.g['$tidyx'] = dict(pre=c.pre, post=c.cur.copy())
+    return vt(c.cur) == vt(c.pre)
+
+
+c.ensures('zero-time', _tidyx_zero, props=['C05', 'C06'])
 c.ensures('no-cancellation-requested', _tidyx_no_cancel)
 c.ensures('frame[elems]', lambda c: local_sets_unchanged(c.pre, c.cur, c.a.self))
 c.ensures('creates-no-task', lambda c: no_new_task_of(c.pre, c.cur, c.a.self))
@@ -336,6 +346,12 @@ c.assumed = ['E9: co_shutdown() of an atomic job returns or raises; behaviour wh
 
 # ---------------------------------------------------------------- the rely of a scheduler activation
 SCHED_RELY_FIELDS = ['_state', '_exception', '_result', '$finished_vt', '_running']
+# everything a run of a scheduler may write (its own effects + those of the contracts it calls)
+RUN_MODIFIES = ['_state', '_exception', '_result', '$finished_vt', '_running', '$cancel_req', '$cancel_vt',
+                '$alive', '$shut', '$sd_of', '$wjob', '$twin', '$created_vt', '_job', '_task',
+                '_did_shutdown', '_expiration', '_failed_critical', '_failed_timeout', '_sched_id', '_s_mark',
+                '_s_successors', '$elems', '$setowner', '$setrole', '$llen', '$lat', 'queue', '$qmax',
+                'jobs_window', '$ycount', '$ypos']
 
 
 def sched_rely(c):
@@ -390,6 +406,8 @@ c.store_guard = lambda c, field, obj, val: And(obj == c.a.self, field in ('_did_
 def _sd_once(c):
     S = c.a.self
     m = q()
+    if c.mode == 'assume':
+        c.cur.g['$sd'] = dict(pre=c.pre, post=c.cur.copy())
     return Implies(c.pre.f('_did_shutdown', S), And(
         c.result == TRUE,
         ForAll([m], Implies(member(c.pre, S, m), c.cur.f('$shut', m) == c.pre.f('$shut', m)),
